@@ -229,6 +229,7 @@ def check(m, run):
     n_vh = len(run.obs)
     try:
         _sd.vh2(m, run)
+        _sd.vn2(m, run)
     except AnalysisError as ex:
         run.error(str(ex))
     vh_ok = len(run.obs) > n_vh and all(o.ok for o in run.obs[n_vh:])
